@@ -204,8 +204,19 @@ func (p *sparser) parseUnary() *Expr {
 func (p *sparser) parseTypeName() string {
 	// a type in a binder: sequence of id . id * [ ] until , or ::
 	var sb strings.Builder
-	for !(p.isOp(",") || p.isOp("::") || p.peek().k == "eof") {
-		sb.WriteString(p.next().s)
+	depth := 0
+	for !((p.isOp(",") && depth == 0) || p.isOp("::") || p.peek().k == "eof") {
+		t := p.next().s
+		if t == "(" {
+			depth++
+		} else if t == ")" {
+			depth--
+		}
+		cur := sb.String()
+		if cur != "" && t != ")" && !strings.HasSuffix(cur, "(") && depth > 0 {
+			sb.WriteString(" ")
+		}
+		sb.WriteString(t)
 	}
 	return sb.String()
 }
@@ -431,6 +442,7 @@ type FuncSpec struct {
 	TrustedModifies []*Expr
 	TrustedWhy      string
 	InternalEnsures []Clause // proved for the body, not exported to callers (may mention ghost variables)
+	VacuousOK       map[int]string // return ordinals (source order) expected to be unreachable under the contract
 	Unguarded       []string // "Type.field" reads exempt from guarded_by in this function (with reason)
 	UnguardedWhy    []string
 }
@@ -485,6 +497,12 @@ func (f *FuncSpec) merge(g *FuncSpec) {
 	}
 	f.Unguarded = append(f.Unguarded, g.Unguarded...)
 	f.UnguardedWhy = append(f.UnguardedWhy, g.UnguardedWhy...)
+	for k, v := range g.VacuousOK {
+		if f.VacuousOK == nil {
+			f.VacuousOK = map[int]string{}
+		}
+		f.VacuousOK[k] = v
+	}
 }
 
 func hasPropS(ps []string, p string) bool {
@@ -1106,6 +1124,20 @@ func parseFuncClause(f *FuncSpec, word, rest, pos string, ext bool) error {
 		if rest != "" {
 			f.UnguardedWhy = append(f.UnguardedWhy, "exclusive: "+rest)
 		}
+	case "unreachable":
+		// unreachable return#N: reason   (the N-th return statement in source order)
+		w, why := splitWord(rest)
+		if !strings.HasPrefix(w, "return#") || why == "" {
+			return fmt.Errorf("%s: expected 'unreachable return#N: reason'", pos)
+		}
+		n, err := strconv.Atoi(strings.TrimSuffix(strings.TrimPrefix(w, "return#"), ":"))
+		if err != nil {
+			return fmt.Errorf("%s: bad return ordinal", pos)
+		}
+		if f.VacuousOK == nil {
+			f.VacuousOK = map[int]string{}
+		}
+		f.VacuousOK[n] = why
 	case "unguarded":
 		w, why := splitWord(rest)
 		if why == "" {
